@@ -106,6 +106,11 @@ class CallGraph:
                         a = _attr_of(t.value)
                         if a is not None:
                             out.append(Write(u, n, U(t.value), a[0], 'subscript', a[1]))
+                        elif isinstance(t.value, ast.Subscript):
+                            # x.attr[k][...] = v : the item of the container is overwritten in place (slice / element assignment)
+                            a2 = _attr_of(t.value.value)
+                            if a2 is not None:
+                                out.append(Write(u, n, U(t.value), a2[0], 'setitem@item', a2[1]))
                     elif isinstance(t, ast.Name) and self._is_global_write(t.id, u):
                         out.append(Write(u, n, t.id, t.id, how, None))
             elif isinstance(n, ast.Delete):
@@ -114,6 +119,10 @@ class CallGraph:
                         a = _attr_of(t.value)
                         if a is not None:
                             out.append(Write(u, n, U(t.value), a[0], 'del', a[1]))
+                        elif isinstance(t.value, ast.Subscript):
+                            a2 = _attr_of(t.value.value)
+                            if a2 is not None:
+                                out.append(Write(u, n, U(t.value), a2[0], 'del@item', a2[1]))
                     elif isinstance(t, ast.Attribute):
                         out.append(Write(u, n, U(t), t.attr, 'del', t.value))
             elif isinstance(n, ast.Call) and isinstance(n.func, ast.Attribute) and n.func.attr in MUTATORS:
